@@ -176,7 +176,9 @@ def go_module(scr, name, gen, race=False, tags="verif", pkg_subdir=None, extra_s
                 if f.endswith(".go"):
                     p = os.path.join(root, f)
                     s = open(p).read()
-                    s2 = s.replace('"github.com/PapaCharlie/go-restli/v2/', '"github.com/PapaCharlie/go-restli/')
+                    s2 = s.replace('"github.com/PapaCharlie/go-restli/v2/restlidata/generated/com/linkedin/restli/common"',
+                                   'common "github.com/PapaCharlie/go-restli/restlidata"')
+                    s2 = s2.replace('"github.com/PapaCharlie/go-restli/v2/', '"github.com/PapaCharlie/go-restli/')
                     if s2 != s:
                         open(p, "w").write(s2)
     with open(os.path.join(d, "go.mod"), "w") as f:
